@@ -200,6 +200,9 @@ pub fn load_known(path: &str) -> Vec<KnownFinding> {
         Ok(t) => t,
         Err(_) => return vec![],
     };
+    if txt.trim().is_empty() {
+        return vec![];
+    }
     let v: Value = serde_json::from_str(&txt).unwrap_or_else(|e| {
         eprintln!("harness error: {path} is not valid JSON: {e}");
         std::process::exit(2)
